@@ -91,6 +91,11 @@ def _clear(s, mode):
     got = trees.format_label(l2)
     if got != exp:
         return "clearing %s of %r gives %r, expected %r" % (comp, s, got, exp)
+    # the object returned earlier was modified: a fresh parse of the same string must not be affected
+    l3 = trees.parse_label(s)
+    want = {"gapindex": gap, "coindex": co, "headmarker": head, "gf": gf if gf is not None else "--"}[comp]
+    if getattr(l3, comp) != want:
+        return "parsing %r again after clearing %s of an earlier result gives %s=%r, expected %r" % (s, comp, comp, getattr(l3, comp), want)
     return ""
 
 
